@@ -210,6 +210,15 @@ static size_t pick_caps(size_t n, size_t *caps) {
             caps[k++] = pts[i];
         }
     }
+    /* a capacity that cuts EVERY 128-value block at several residues (the block codecs decode whole blocks) */
+    static const size_t RES[6] = {1, 31, 63, 64, 65, 127};
+    for (size_t b = 1; b * 128 < n && k + 6 < 480; b++) {
+        for (int ri = 0; ri < 6; ri++) {
+            if (b * 128 + RES[ri] < n) {
+                caps[k++] = b * 128 + RES[ri];
+            }
+        }
+    }
     return k;
 }
 
@@ -377,6 +386,40 @@ static void codec_for(const uint64_t *vals, size_t n) {
         }
         if (M16) {
             check_for_meta(batch ? "FOR.BatchAnalyze" : "FOR.Analyze", &am, mn, mx, n, predicted, 1);
+        }
+        /* a frame analysed over the WHOLE array, reused for a chunk of it (count set to the chunk's length by the caller:
+         * the documented 'already analysed' path): the returned size is the bytes written, the chunk decodes, and the
+         * header read back says what was written */
+        if (n >= 2 && n <= 5000 && (M16 || M02 || M03)) {
+            size_t chunk = n / 2;
+            varintFORMeta fm = am;
+            fm.count = chunk;
+            fm.encodedSize = am.encodedSize; /* left as the whole array's: the caller did not touch it */
+            size_t room = 9 * chunk + 64;
+            uint8_t *dst = vh_gb_get(G_DST, room + SLACK, 0xEE);
+            size_t w2 = 0;
+            if (LIBCALL(eapi, "encode a chunk with the whole array's frame", w2 = batch ? varintFORBatchEncode(dst, in, chunk, &fm) : varintFOREncode(dst, in, chunk, &fm))) {
+                size_t hdr = (size_t)ref_tagged(dst[0] ? 0 : 0, (uint8_t[16]){0});
+                (void)hdr;
+                varintFORMeta rm2;
+                memset(&rm2, 0, sizeof rm2);
+                uint64_t *out = out_buf(chunk);
+                size_t r2 = 0, at2 = 0;
+                if (w2 == 0 || w2 > room) {
+                    AFAIL(eapi, "metadata_untrue", "%s: chunk of %zu with the whole array's frame: returned %zu", cur_desc, chunk, w2);
+                } else if (LIBCALL("FOR.ReadMetadata", "read header of the chunk", varintFORReadMetadata(dst, &rm2)) &&
+                           LIBCALL("FOR.Decode", "decode the chunk", r2 = varintFORDecode(dst, out, chunk))) {
+                    size_t truebytes = 0;
+                    /* bytes really occupied: header (tagged min, width byte, tagged count) + count x width */
+                    truebytes = (size_t)ref_tagged(rm2.minValue, (uint8_t[16]){0}) + 1 + (size_t)ref_tagged(rm2.count, (uint8_t[16]){0}) + rm2.count * (size_t)rm2.offsetWidth;
+                    if (r2 != chunk || cmp_u64(out, vals, chunk, &at2)) {
+                        AFAIL("FOR.Decode", "roundtrip_mismatch", "%s: chunk of %zu encoded with the whole array's frame: returned %zu", cur_desc, chunk, r2);
+                    } else if (rm2.count != chunk || w2 != truebytes || rm2.encodedSize != truebytes) {
+                        AFAIL(eapi, "metadata_untrue", "%s: chunk of %zu encoded with the whole array's frame: encoder returned %zu, the record occupies %zu bytes (header read back: count %zu width %d encodedSize %zu)", cur_desc, chunk, w2, truebytes,
+                              rm2.count, (int)rm2.offsetWidth, rm2.encodedSize);
+                    }
+                }
+            }
         }
         /* three ways to call the encoder: NULL meta, zeroed meta (filled), pre-analysed meta */
         for (int mm = 0; mm < 3; mm++) {
@@ -1756,7 +1799,7 @@ int main(int argc, char **argv) {
     }
     vh_sandbox_init();
     vh_watchdog(300); /* a library call that makes no progress for a whole period is reported as a hang (the longest legitimate call, the adaptive analysis of 3,000,000 values, takes about 30 s) */
-    size_t maxn = M13 ? (vh_thorough ? 4097 : 385) : CORPUS_MAXN;
+    size_t maxn = M13 ? (vh_thorough ? 4097 : 1300) : CORPUS_MAXN;
     const char *e = getenv("VERIF_MAXN");
     if (e) {
         maxn = (size_t)atol(e);
